@@ -19,12 +19,16 @@ func runC05(r *engine.Run) {
 	r.Rule("DEP-origin", "every trie node's hash pre-image starts with its origin (see C02 AGREE-hash): a hash recorded dead in one round cannot name a node created in a later round")
 	r.Rule("DOM-prune", "in PruneBelowVersion a dead-node record is handed to the deleter only when its round (decoded from the record key) is strictly below the version argument; the keys deleted from the node column family and the rounds dropped from the dead-nodes column family have the channel receive as their only provenance; records are dropped only after all node deletes; record keys/rounds and column families agree between writer (RecordDeadNodes/saveDeadNodes), reader (iteratorDeadNodes) and deleter")
 	r.Rule("AGREE-roundkey", "uint64ToBytes (writer) and bytesToUint64 (reader) use the same, big-endian byte order (the early break of the prune iteration relies on ascending key order)")
+	r.Rule("WHO-livedelete", "see C04: a node the rebuilt trie still references is never handed to deleteNode (it would be recorded dead while reachable)")
+	r.Rule("DOM-samekey", "see C04: an unchanged re-write is not reported to the change collector (its hash would enter the dead set while live)")
 	r.NotDec = append(r.NotDec, "reachability of recorded nodes from later roots (graph property of runtime content)")
 	domCancel(r)
 	agreeHash(r, "DEP-origin")
 	domPrune(r)
 	agreeRoundKey(r)
 	freshNode(r, "C05")
+	whoLiveDelete(r, "WHO-livedelete")
+	domSameKey(r, "DOM-samekey")
 }
 
 func domCancel(r *engine.Run) {
